@@ -5,21 +5,21 @@ import re, subprocess
 from pathlib import Path
 V = Path(__file__).resolve().parent.parent
 FUNCS = {
- "C01": "compile side: `IfStatement/ElseStatement/WhileLoop/NumberLoop::compile`, `Function::compile` (parameter prologue, layout), `ScopeStack::scopes_since_loop` (+ every `fn(&self)->bool` predicate of `Scope` it uses, R15), tail of `Parser::number_loop`, `bin_op_assign` tables; interpreter side: handlers `if_stmt while_loop jmp jmp_pop done else_stmt store_skip load ret store store_fast load_fast assert`, one iteration of `Function::run` per exit state, `Stack::{get_executing_function_label, pop_until_function, register_variable_local, find_name}`",
- "C02": "native table of `TypeLayout::get_output_type` vs the run-time operators; list arms of `eq_complex`, `PartialEq for ListType / FunctionType`, `try_coerce_to_open`; `supports_negate`, `is_numeric`; numeric-bounds checks of `Parser::number_loop`; `Parser::{if_statement, while_loop, assertion}` (return-path marking, conditions), `ScopeReturnStatus::all_branches_return`, `Parser::return_statement` table, `Parser::function_arguments`, `Parser::reassignment` (value fits the place), `Parser::class_bound_function` (return on every path), `Expr::for_type` arms BinOp / UnaryUnwrap / NilEval",
- "C03": "rejection side of the operator table and of list / function-type compatibility; `Parser::{if_statement, while_loop, assertion, return_statement, function_arguments, assignment_type, assignment_no_type, reassignment}`, tail of `Parser::assignment`, `Expr::for_type` (BinOp), `Parser::function_parameters`, `Value::get_usize`, `has_name_been_mapped_in_function`",
+ "C01": "compile side: `IfStatement/ElseStatement/WhileLoop/NumberLoop::compile`, `Function::compile` (parameter prologue, layout), `ScopeStack::scopes_since_loop` (+ every `fn(&self)->bool` predicate of `Scope` it uses, R15), tail of `Parser::number_loop`, `bin_op_assign` tables; interpreter side: handlers `if_stmt while_loop jmp jmp_pop done else_stmt store_skip load ret store store_fast load_fast assert`, one iteration of `Function::run` per exit state, `Stack::{get_executing_function_label, pop_until_function, register_variable_local, find_name}`; the `PRATT_PARSER` precedence table; `map_infix` closure of `parse_expr`; handler `call_self`",
+ "C02": "native table of `TypeLayout::get_output_type` vs the run-time operators; list arms of `eq_complex`, `PartialEq for ListType / FunctionType`, `try_coerce_to_open`; `supports_negate`, `is_numeric`; numeric-bounds checks of `Parser::number_loop`; `Parser::{if_statement, while_loop, assertion}` (return-path marking, conditions), `ScopeReturnStatus::all_branches_return`, `Parser::return_statement` table, `Parser::function_arguments`, `Parser::reassignment` (value fits the place), `Parser::class_bound_function` (return on every path), `Expr::for_type` arms BinOp / UnaryUnwrap / NilEval; `TypeLayout::get_output_type_from_index` (head); dependencies of list / argument / index / map literals",
+ "C03": "rejection side of the operator table and of list / function-type compatibility; `Parser::{if_statement, while_loop, assertion, return_statement, function_arguments, assignment_type, assignment_no_type, reassignment}`, tail of `Parser::assignment`, `Expr::for_type` (BinOp), `Parser::function_parameters`, `Value::get_usize`, `has_name_been_mapped_in_function`; `TypeLayout::get_output_type_from_index` (head)",
  "C04": "`split_string_v2` (argument decoder), `CompiledItem::repr` binary form + `fix_arg_if_needed` (writer), round-trip lemma; `perform_file_io_out` (file = exactly the records); body of the record loop of `MScriptFile::get_functions` (loader); `--stack-size` defaults of `run` / `execute` (cli.rs attributes)",
  "C05": "every `impl {Add,Sub,Mul,Div,Rem,BitAnd,BitOr,BitXor,Shl,Shr} for &Primitive` (macro bodies), `negate`, `equals`, `PartialOrd`, `!` — 16 kind pairs × all operand values",
  "C06": "`mod string_arithmetic` of `compiler/src/ast/number.rs` verbatim (the folder of `+ - * / % & \\| ^ << >>` on literals), `Number::negate`, arms UnaryMinus / BinOp of `Expr::try_constexpr_eval`; the run-time operators of C05 (the other side of the agreement)",
- "C07": "handlers `make_function`, `call`, `load`, `store`, `store_object`; `Ctx::{push, load_callback_variable, update_callback_variable}`; `Stack::register_variable_flags`, `find_name`, `register_variable_local`; `VariableMapping::update`; `impl Dependencies for Expr / Assignment / IfStatement / ElseStatement / WhileLoop / NumberLoop / ReturnStatement / Assertion / PrintStatement / Reassignment / ReassignmentPath`; `impl Dependencies for DotChain`; `MapOp/FilterOp::{new, wait_for}`; tail of `process_standard_jump_request`; parser-side capture marking",
+ "C07": "handlers `make_function`, `call`, `load`, `store`, `store_object`; `Ctx::{push, load_callback_variable, update_callback_variable}`; `Stack::register_variable_flags`, `find_name`, `register_variable_local`; `VariableMapping::update`; `impl Dependencies for Expr / Assignment / IfStatement / ElseStatement / WhileLoop / NumberLoop / ReturnStatement / Assertion / PrintStatement / Reassignment / ReassignmentPath`; `impl Dependencies for DotChain`; `MapOp/FilterOp::{new, wait_for}`; tail of `process_standard_jump_request`; parser-side capture marking; handler `call_self` + `Ctx::get_callback_variables`; `impl Dependencies for List / FunctionArguments / Index / Map`",
  "C08": "`HeapPrimitive::set`, handler `ptr_mut`, `DotLookupOption::compile` / `DotChain::compile`, `runtime_addr_check` (`is`), `bin_op_assign` tables, `store_object` (`modify`), `unwrap_into`, `ret` / `store` (values, not pointers), `self`-first check of `Parser::function_parameters`",
- "C09": "same compile functions as C01 + `compile_depth` BinOp arm; interpreter side: control handlers, `Function::run` step (frames opened / closed per exit state), `pop_until_function`",
+ "C09": "same compile functions as C01 + `compile_depth` BinOp arm; interpreter side: control handlers, `Function::run` step (frames opened / closed per exit state), `pop_until_function`; scope-depth discipline of `Parser::{if_statement, while_loop}` (one scope per frame)",
  "C10": "`Ident::{new,mark_const,is_const,wrap_in_callback,clone_with_type}`, `Parser::{assignment_type,assignment_no_type}`, tail of `Parser::assignment`, name loop of `Parser::assignment_unpack`, tail of `Parser::number_loop`, `Expr::root_ident`, `Expr::for_type` (BinOp), `Op::is_op_assign`, `parse_path` (root-name arm, `.field` step) and `Parser::reassignment`, `Parser::class`, `Parser::import_standard`, the member-binding part of `Parser::import_names` (known finding D45), `has_name_been_mapped_in_function`, `Stack::register_variable_flags` (read-only backstop)",
- "C11": "`Program::process_jump_request`, `process_library_jump_request`, `Import::compile`, handler `export_name`, `Assignment::type_from_node`, declaration loop / class arm of `ModuleType::from_node`; the const-flag functions of C10 that stop an importer's writes",
- "C12": "`jmp_not_nil`, `unwrap`, `unwrap_into` handlers and the `Ctx` methods they use; leading match of `Primitive::equals`; `TypeLayout::{get_type_recursively, is_optional, disregard_distractors}` + arms UnaryUnwrap / NilEval of `Expr::for_type`; NilEval arm of `Expr::dependencies`",
+ "C11": "`Program::process_jump_request`, `process_library_jump_request`, `Import::compile`, handler `export_name`, `Assignment::type_from_node`, declaration loop / class arm of `ModuleType::from_node`; the const-flag functions of C10 that stop an importer's writes; `Import::path_from_parts`, `Parser::import_path`, `Parser::import_standard`; order of the generic `to_str` arm in `Primitive::lookup`",
+ "C12": "`jmp_not_nil`, `unwrap`, `unwrap_into` handlers and the `Ctx` methods they use; leading match of `Primitive::equals`; `TypeLayout::{get_type_recursively, is_optional, disregard_distractors}` + arms UnaryUnwrap / NilEval of `Expr::for_type`; NilEval arm of `Expr::dependencies`; `map_prefix` closure of `parse_expr` (`get e` is always an unwrap); `compile_depth` BinOp arm (comparisons with `nil`)",
  "C13": "`BuiltInFunction::run` arms `VecLen/Reverse/Remove/Push/Join/IndexOf/Clear/Clone`, list arm of `Primitive::equals`, `vec_op` index / append branches, `Primitive::try_into_numeric_index`, `GcMap::{insert,get,len,contains_key,clear,remove}`, `HeapPrimitive::set`, `ptr_mut`, `map`/`filter` bridges (empty receiver, visit)",
  "C14": "`BuiltInFunction::run` arms `GenericToInt/ToBigint/ToByte/ToFloat/Abs`, `FloatFPart/IPart/Round/Floor/Ceil` (value, not only kind), `StrLen/Substring/Insert/Delete/Split/IndexOf`; string indexing (`vec_op` Str arm); the dispatch table `Primitive::lookup` ∘ `static_module_generator!`",
- "C15": "`compile_depth` BinOp arm; `List::compile`, `Map::compile`, `Callable::compile`; handlers `store_skip`, `jmp_not_nil`, `ret`; `vec_op +`; BinOp arm of `Expr::try_constexpr_eval` (a non-constant operand is never folded away)",
+ "C15": "`compile_depth` BinOp arm; `List::compile`, `Map::compile`, `Callable::compile`; handlers `store_skip`, `jmp_not_nil`, `ret`; `vec_op +`; BinOp arm of `Expr::try_constexpr_eval` (a non-constant operand is never folded away); `map_infix` / `map_prefix` closures of `parse_expr`; the precedence table",
  "C16": "the literal folder (never panics), `number_from_string`, `TryFrom<&Number> for usize`, `Value::get_usize`, `ListType::upper_bound` (known finding D25), `ListType::try_coerce_to_open`, `Parser::function_parameters`, `Expr::for_type` (op-assign / `?=` operand shapes; `or` typing without assert)",
  "C17": "\"returns `Err`, never panics\" reading of the C05/C13/C14 functions; `try_into_numeric_index`; `call` keeps the native frame on failure; `map`/`filter` visits; `assert` handler; `Function::run` step: a callee's error reaches the caller unchanged (also under a list callback); `Display for Stack`",
  "C18": "`CompiledItem::repr` text form, transpiler `Instruction::repr`, transpiler line decoder, opcode name table; the loader's record loop (shared with C04)",
